@@ -204,7 +204,7 @@ M = [
     ("c15_attr_whitelist_widened", "C15", S + "container/wrappers.py",
      "        NodeAcl.read_only: {\"keys\", \"values\", \"items\", \"get\"},", "        NodeAcl.read_only: {\"keys\", \"values\", \"items\", \"get\", \"update\", \"pop\"},"),
     ("c15_restrict_assigns", "C15", S + "container/wrappers.py",
-     "        self._self_flags.update({k: True for k, v in added_flags.items() if v})", "        self._self_flags.update({k: v for k, v in added_flags.items() if k.name in kwargs or v})"),
+     "        self._self_flags.update({k: True for k, v in added_flags.items() if v})", "        self._self_flags.update(added_flags)"),
     ("c15_revert_dataset_getattr_fix", "C15", S + "container/wrappers.py",
      "        if isinstance(getattr(type(self), key, None), property):\n            # we only get here if the getter of a wrapper property refused access\n            # (the raised exception is an AttributeError) -> do not pass through!\n            raise UnsupportedOperationError(key)\n", ""),
     ("c15_meta_delete_unguarded", "C15", S + "container/interface.py",
@@ -256,6 +256,17 @@ M = [
 ]
 
 
+# mutants that turned out to be behaviour-preserving with respect to the property (argued, not observed)
+EQUIVALENT = {
+    "c01_create_group_forgets_subst": "the first new path segment keeps its SUBST mark and shadows everything older below it, so the mark on the final group is redundant",
+    "c08_contains_unguarded": "membership of a reserved name is still False (the filtered key listing decides), which is a rejection; absolute paths on local-only nodes still raise in __getitem__",
+    "c18_order_permuted": "only the relative order of a directory and its MODIFIED children changes; the property constrains removals-before-parent and additions-after-parent, which still hold",
+    "c20_constants_not_listed": "pydantic lists constant fields as properties anyway because add_const_fields registers them as model fields",
+    "c12_by_alias_default_removed": "fails the upstream suite; for round trips field names are accepted on input (allow_population_by_field_name)",
+    "c12_exclude_none_default_removed": "fails the upstream suite; explicit nulls parse back to None, the instance is equal",
+}
+
+
 def main():
     OUT.mkdir(exist_ok=True)
     for f in OUT.glob("*.diff"):
@@ -272,6 +283,8 @@ def main():
         diff = "".join(difflib.unified_diff(src.splitlines(True), mut.splitlines(True), f"a/{rel}", f"b/{rel}"))
         (OUT / f"{name}.diff").write_text(diff)
         meta[name] = {"properties": props.split(","), "file": rel}
+        if name in EQUIVALENT:
+            meta[name]["equivalent"] = EQUIVALENT[name]
     (OUT / "index.json").write_text(json.dumps(meta, indent=1))
     print(f"{len(meta)} mutants written, {bad} patterns not found")
     return 1 if bad else 0
